@@ -654,6 +654,11 @@ def g_XRayTransform3D(rng):
             out.append({"shape": shape, "det_shape": det, "seq": seq, "angles": angles, "voxel_spacing": None, "det_spacing": None})
     out[-16]["must"] = True  # (11,2,2), identity view: equals x.sum(axis=2)
     out[-11]["must"] = True  # (12,2,1), two views
+    # footprints whose left edge lies exactly on a detector-bin edge (voxel spacing 1/2, detector one bin wider / narrower)
+    for shape, det in [([2, 2, 2], [3, 3]), ([2, 2, 1], [3, 2]), ([4, 2, 2], [4, 3]), ([2, 4, 1], [2, 2])]:
+        for seq, angles in [("X", [[0.0]]), ("Z", [[math.pi / 2]])]:
+            out.append({"shape": shape, "det_shape": det, "seq": seq, "angles": angles, "voxel_spacing": [0.5, 0.5, 0.5], "det_spacing": None})
+    out[-8]["must"] = True
     return out
 
 
